@@ -1,6 +1,7 @@
 """Programs that `match` on integer literals (C01: both back ends must agree; no reference semantics needed).
 The scrutinee sweeps a range that starts below the smallest arm, crosses holes between the arms and ends above the
-largest one; arms are sparse literal sets; matches nest and feed each other."""
+largest one; arms are sparse literal sets; matches nest and feed each other; in half of the functions a third of the arms
+hold a stateful construct of their own (a counter instance, `mem`, `delay`)."""
 from coregen import Rng, hash_name
 
 CONSTS = ["100.0", "200.0", "300.0", "400.0", "0.5", "7.0", "1000.0", "2.5", "(-3.0)"]
@@ -26,8 +27,15 @@ def make_case(seed, idx, times=24):
         if r.chance(1, 3):
             lits = [x + r.below(40) for x in lits]        # sparse / shifted tables
             lits = sorted(set(lits))
-        body = "".join(f"    {l} => {r.pick(CONSTS)},\n" for l in lits)
-        dflt = r.pick(CONSTS) if not (names and r.chance(1, 3)) else f"{r.pick(names)}(n + 1)"
+        # arms with state of their own (finding F3 repaired: every arm owns its cells): a counter instance, a mem, a delay
+        def arm():
+            c = r.pick(CONSTS)
+            if stateful and r.chance(1, 3):
+                return r.pick([f"{c} + acc()", f"acc() * {c}", f"mem(n) + {c}", f"delay(4.0, n, 1.0) + {c}", f"{c} + acc() + mem(n * 2.0)"])
+            return c
+        stateful = r.chance(1, 2)
+        body = "".join(f"    {l} => {arm()},\n" for l in lits)
+        dflt = arm() if not (names and r.chance(1, 3)) else f"{r.pick(names)}(n + 1)"
         fns.append(f"fn pick{k}(n){{\n  match n {{\n{body}    _ => {dflt}\n  }}\n}}\n")
         names.append(f"pick{k}")
     terms = []
@@ -36,6 +44,6 @@ def make_case(seed, idx, times=24):
         off = r.below(9)
         src = r.pick([f"cnt() - {off}", f"floor(now * 0.5) - {off}", f"{off} - cnt()", f"cnt() * 2 - {off}", f"floor(a0) - {off}"])
         terms.append(f"{f}({src})" + (f" * {r.pick(['1.0', '0.001', '2.0'])}" if r.chance(1, 2) else ""))
-    src = "fn cnt(){\n  self + 1\n}\n" + "".join(fns) + "fn dsp(a0:float){\n  " + " + ".join(terms) + "\n}\n"
+    src = "fn cnt(){\n  self + 1\n}\nfn acc(){\n  self + 1\n}\n" + "".join(fns) + "fn dsp(a0:float){\n  " + " + ".join(terms) + "\n}\n"
     inputs = [[float(r.below(14)) - 3.0] for _ in range(times)]
     return src, inputs
